@@ -404,7 +404,9 @@ MCLazyInitial == %s
     chk.add_tlc(rest, 'trace-validation(%d traces)' % ntr)
     rej = [p for tag, p in rest.prints if tag == 'REJ']
     if not rej:
-        raise MachineryError('C15: trace validation printed no verdict:\n' + rest.out[-3000:])
+        if not rest.violated:
+            raise MachineryError('C15: trace validation printed no verdict:\n' + rest.out[-3000:])
+        rej = [{}]      # TLC stopped at the invariant violation before the verdict was printed: reported below
     rejected = rej[-1]
     chk.traces += ntr
     chk.evaluations += ntr
